@@ -11,19 +11,19 @@ cannot substitute the damaged atom and Prerequisite.is_satisfied() raises
 scheduler.  `cylc validate` only notices at the initial cycle point
 ("ERROR: bad trigger"), `cylc play` does not check at all.
 
-(1) offset-short-qualifier-prefix: r'\\b%s\\b%s:%s(?!:)' (offset form) has no
-    trailing \\b, so ":succeed" also matches the head of ":succeeded".
-(2) implicit-succeeded-name-token-inside-other-name: r'\\b%s\\b(?![\\[:])' for an
-    implicit "a" matches the token "a" of task "a-x".
-(2b) implicit-succeeded-name-equals-qualifier-token: the same regex for an
+(2b) implicit-succeeded-name-equals-qualifier-token: r'NAME(?![\\[:])' for an
     implicit task "x" matches the qualifier of "a:x" (custom output x of
     another task): "a:x:succeeded".
-(3) short-qualifier-before-hyphen: r'\\b%s:%s\\b(?![\\[:])' for "a:fail"
-    matches the head of "a:fail-safe" (custom output).
+(3) short-qualifier-before-hyphen: r'NAME:short\\b(?![\\[:])' for "a:fail"
+    matches the head of "a:fail-safe" (custom output): "a:failed-safe".
 (4) finish-name-suffix: expr.replace("a:finished", "(a:succeeded|a:failed)")
-    also rewrites the tail of "aa:finished".
-(5) name-ends-nonword: \\bNAME\\b can never match a task name ending in one
-    of the permitted characters + % @ -, so "foo+[-P1]" is left as it is.
+    also rewrites the tail of "aa:finished": "a(...)".
+
+Three sibling defects found by the same check were fixed in /repo by commits
+c10e22a and 86a328e (offset form + short qualifier `a[-P1]:succeeded |
+a[-P1]:succeed`; implicit name inside a hyphenated name `a | a-x`; names
+ending in + % @ - `foo+[-P1] | b`); they are listed last as regression guards
+and not counted.
 """
 import tempfile
 from pathlib import Path
@@ -35,10 +35,6 @@ from cylc.flow.scripts.validate import ValidateOptions
 from cylc.flow.task_proxy import TaskProxy
 
 CASES = [
-    ('offset-short-qualifier-prefix',
-     'a\n a[-P1]:succeeded | a[-P1]:succeed => tgt', ''),
-    ('implicit-succeeded-name-token-inside-other-name',
-     'a | a-x => tgt', ''),
     ('implicit-succeeded-name-equals-qualifier-token',
      'a:x | x => tgt',
      '    [[a]]\n        [[[outputs]]]\n            x = x done'),
@@ -47,12 +43,18 @@ CASES = [
      '    [[a]]\n        [[[outputs]]]\n            fail-safe = failed safely'),
     ('finish-name-suffix',
      'a:finish | aa:finish => tgt', ''),
-    ('name-ends-nonword',
+]
+FIXED = [
+    ('(fixed c10e22a) offset-short-qualifier-prefix',
+     'a\n a[-P1]:succeeded | a[-P1]:succeed => tgt', ''),
+    ('(fixed 86a328e) implicit-succeeded-name-token-inside-other-name',
+     'a | a-x => tgt', ''),
+    ('(fixed 86a328e) name-ends-nonword',
      'foo+\n foo+[-P1] | b => tgt', ''),
 ]
 
 wrong = 0
-for label, graph, runtime in CASES:
+for label, graph, runtime in CASES + FIXED:
     d = Path(tempfile.mkdtemp())
     (d / 'flow.cylc').write_text(f'''
 [scheduler]
@@ -77,7 +79,8 @@ for label, graph, runtime in CASES:
     try:
         print('    satisfied:', itask.state.prerequisites_all_satisfied())
     except Exception as exc:
-        wrong += 1
+        if (label, graph, runtime) in CASES:
+            wrong += 1
         print(f'    is_satisfied() raised {type(exc).__name__}: '
               f'{str(exc).splitlines()[-1]}')
 
